@@ -62,6 +62,9 @@ var c08Outcomes = []string{"ok", "ok", "ok", "et", "ep", "pe", "ps", "pS", "pi",
 
 func genSrvReq(g *simrt.Tape) *ReqSc {
 	rs := &ReqSc{Version: g.Draw(5), Option: g.Draw(3), Hdr: genHdr(g)}
+	if g.Draw(40) == 0 {
+		rs.Pad = []int{9000, 80000, 200000, 900000}[g.Draw(4)]
+	}
 	if g.Draw(12) == 0 {
 		rs.Version = 5
 	}
@@ -702,6 +705,12 @@ func c08FaultFloor(tier string) []*C08Sc {
 			}
 			acts = append(acts, ActSc{Kind: "stop"})
 			out = append(out, &C08Sc{StalledShutdown: true, Capacity: capy, Clients: []RawClientSc{{Acts: acts}, {Canary: true, Acts: c08BaseWorkload().Clients[1].Acts}}})
+		}
+	}
+	for _, pad := range []int{9000, 70000, 80000, 140000, 300000, 900000} {
+		for _, ch := range []int{simnet.ChunkMax, simnet.ChunkRandom} {
+			big := &ReqSc{Version: 4, Pad: pad, Items: []ItemSc{{Tok: "ok"}, {Tok: "ok"}}}
+			out = append(out, &C08Sc{Chunk: ch, Clients: []RawClientSc{{Acts: []ActSc{{Kind: "send", Req: big}, {Kind: "read"}, {Kind: "send", Req: ok1}, {Kind: "read"}}}, {Canary: true, Acts: c08BaseWorkload().Clients[1].Acts}}})
 		}
 	}
 	for _, acts := range [][]ActSc{nil, {{Kind: "send", Req: ok1}}} {
